@@ -27,7 +27,8 @@ RULE = ("histories of 5-40 operations from {randomize (same or NEW antenna "
         "operation bigram); non-trivial = a view read or a transmission that "
         "follows at least one mutation.  "
         "Path-loss matrices also come with integer dtype (all ones, 0/1 masks) "
-        "next to fractional external-interference path loss. ")
+        "next to fractional external-interference path loss. "
+        "A third of the transmissions use corrupt_concatenated_data. ")
 ASSUMPTIONS = ["post filters are square (Nr_k x Nr_k): the per-receiver split "
                "by antenna count is then unambiguous",
                "the number of users is not changed while a path loss is in "
@@ -141,9 +142,24 @@ def do_corrupt(ctx, obj, m, rng, hist):
     d = lambda **e: (lambda: {"ext": m.ext, "K": m.K, "Nr": m.Nr, "Nt": m.Nt, "NtE": m.NtE,
                               "noise": m.noise, "filters": m.W is not None,
                               "pathloss": m.pl is not None, "history": hist[-12:], **e})
-    okc, out = ctx.call("corrupt-data", obj.corrupt_data, *args, detail=d())
-    if not okc:
-        return
+    concat = rng.random() < 0.35
+    if concat:
+        # the same transmission handed over as ONE stacked block
+        okc, outc = ctx.call("corrupt-data", obj.corrupt_concatenated_data, np.vstack(stacked),
+                             cls="corrupt_concatenated_data", detail=d())
+        if not okc:
+            return
+        outc = np.asarray(outc)
+        crr = np.hstack([0, np.cumsum(m.Nr)])
+        ctx.ev("corrupt-data", outc.ndim == 2 and outc.shape[0] == crr[-1], cls="concatenated:shape",
+               detail=d(got=outc.shape))
+        if outc.ndim != 2 or outc.shape[0] != crr[-1]:
+            return
+        out = [outc[crr[k]:crr[k + 1]] for k in range(m.K)]
+    else:
+        okc, out = ctx.call("corrupt-data", obj.corrupt_data, *args, detail=d())
+        if not okc:
+            return
     if prev is not None:
         # what an earlier transmission returned belongs to the caller
         same = all(np.array_equal(np.asarray(a), b) for a, b in zip(prev[0], prev[1]))
@@ -180,7 +196,7 @@ def do_corrupt(ctx, obj, m, rng, hist):
             if o.shape != w.shape or fro(o - w) > 64 * EPS * (int(np.sum(m.nt_all())) + 4) * scale:
                 ok = False
                 break
-    ctx.ev("corrupt-data", ok, cls="ext" if m.ext else "plain",
+    ctx.ev("corrupt-data", ok, cls=("ext" if m.ext else "plain") + (":concatenated" if concat else ""),
            detail=d(out0=np.asarray(out[0]) if len(out) else None, want0=y[cr[0]:cr[1]]))
 
 
